@@ -8,7 +8,7 @@ import sys
 import time
 import traceback
 
-from . import core, gen_tables, findings
+from . import core, gen_tables, findings, digests
 
 
 class Timeout(Exception):
@@ -31,6 +31,7 @@ class Ctx:
         self.disagreements = []      # model vs implementation
         self.failures = []           # property oracle failed on the real code
         self.exhaustive = False
+        self.escalated = False       # anchored sources differ from the recorded digests: larger budget in the quick tier
         self.notes = []
         self.rule = ""
 
@@ -39,8 +40,12 @@ class Ctx:
         return self.tier == "quick"
 
     def n(self, quick, thorough):
-        """case budget by tier"""
-        return quick if self.tier == "quick" else thorough
+        """case budget by tier (quick tier with changed sources: geometric mean of the two budgets)"""
+        if self.tier != "quick":
+            return thorough
+        if self.escalated and isinstance(quick, int) and isinstance(thorough, int) and thorough > quick > 0:
+            return min(thorough, max(quick, int(round((quick * thorough) ** 0.5))))
+        return quick
 
     def count(self, key, k=1):
         self.dist[key] = self.dist.get(key, 0) + k
@@ -102,6 +107,10 @@ def main(argv=None):
     meta = load_meta(prop)
     ctx = Ctx(prop, args.tier, seed)
     ctx.lean = core.Lean(meta.get("driver", "drivers/Topo.lean"))
+    changed = digests.changed_files(prop)
+    if changed and os.environ.get("VERIF_NO_ESCALATE") != "1":
+        ctx.escalated = True
+        ctx.notes.append("sources changed since the model was last validated against them: %s -> larger case budget" % ", ".join(changed))
 
     if args.replay:
         rec = json.load(open(args.replay))
@@ -234,6 +243,7 @@ def main(argv=None):
             "input_distribution": ctx.dist,
             "lean_lines": ctx.lean.lines,
             "exhaustive": bool(ctx.exhaustive),
+            "source_changed": changed,
             "known_findings_hit": sorted(hit),
             "leanchecker": proof.get("leanchecker"),
             "notes": ctx.notes,
